@@ -111,6 +111,8 @@ IMPL_FNS = [
     ("fn_impl_deps", "fn v{n}(&self) -> u8;", "fn v{n}(deps: &impl core::any::Any) -> u8 { 0 }"),
     ("fn_generic_eq", "fn v{n}<I{n}: Iterator<Item = u8>>(&self, i: I{n}) -> usize;", "fn v{n}<D, I{n}: Iterator<Item = u8>>(deps: &D, i: I{n}) -> usize { i.count() }"),
     ("fn_where_eq", "fn v{n}(&self) -> u8;", "fn v{n}<D>(deps: &D) -> u8 where D: Sized { 0 }"),
+    ("const_fn", "fn v{n}(&self) -> u8;", "pub const fn v{n}<D>(deps: &D) -> u8 { 0 }"),
+    ("unsafe_fn", "unsafe fn v{n}(&self) -> u8;", "pub unsafe fn v{n}<D>(deps: &D) -> u8 { 0 }"),
 ]
 IMPL_ALPHA = [("o", k, None, t) for k, t in IMPL_OPAQUE] + [("v", k, d, t) for k, d, t in IMPL_FNS]
 
